@@ -3336,15 +3336,68 @@ func (r *Resolver) clearAdditional(req, resp *dns.Msg, extra ...bool) *dns.Msg {
 	shouldClearExtra := len(extra) == 0 || !extra[0]
 
 	if shouldClearExtra {
+		// Read the authority's client-subnet echo before its OPT is dropped.
+		echo := forwardedSubnet(resp)
 		resp.Extra = []dns.RR{}
 
 		// Preserve EDNS0 if present
 		if opt := req.IsEdns0(); opt != nil {
-			resp.Extra = append(resp.Extra, opt)
+			resp.Extra = append(resp.Extra, withAuthorityScope(opt, echo))
 		}
 	}
 
 	return resp
+}
+
+// forwardedSubnet returns the EDNS Client Subnet option of m, nil when m
+// carries none.
+func forwardedSubnet(m *dns.Msg) *dns.EDNS0_SUBNET {
+	if m == nil {
+		return nil
+	}
+	opt := m.IsEdns0()
+	if opt == nil {
+		return nil
+	}
+	for _, o := range opt.Option {
+		if subnet, ok := o.(*dns.EDNS0_SUBNET); ok {
+			return subnet
+		}
+	}
+	return nil
+}
+
+// withAuthorityScope returns the request OPT that is re-attached to a
+// response, with the SCOPE the authority declared for the forwarded client
+// subnet (RFC 7871 section 7.2.1) carried over. The request's own option
+// says SCOPE 0, which the cache reads as "suitable for everyone": handing
+// that back would file every tailored answer under the shared key. An echo
+// that does not match what was forwarded (section 7.3) is not trusted to
+// widen the audience: the answer stays with the subnet that asked. The
+// request OPT is never mutated; the edns middleware strips the option
+// before the reply reaches the client.
+func withAuthorityScope(reqOpt *dns.OPT, echo *dns.EDNS0_SUBNET) *dns.OPT {
+	if echo == nil {
+		return reqOpt
+	}
+	for i, o := range reqOpt.Option {
+		sent, ok := o.(*dns.EDNS0_SUBNET)
+		if !ok {
+			continue
+		}
+		scoped := *sent
+		if echo.Family == sent.Family && echo.SourceNetmask == sent.SourceNetmask &&
+			echo.Address.Equal(sent.Address) {
+			scoped.SourceScope = echo.SourceScope
+		} else {
+			scoped.SourceScope = sent.SourceNetmask
+		}
+		out := *reqOpt
+		out.Option = append([]dns.EDNS0(nil), reqOpt.Option...)
+		out.Option[i] = &scoped
+		return &out
+	}
+	return reqOpt
 }
 
 func (r *Resolver) equalServers(s1, s2 *authority.Servers) bool {
